@@ -18,18 +18,35 @@ Notation Rp := C09.Model.Rp (only parsing).
 
 Record case := mk_case8 {
   c_recv : C09.Model.case;         (* channel, chunks, transcript *)
-  c_orig : list bool               (* per chunk: true = original, false = modified / foreign *)
+  c_orig : list bool;              (* per chunk: true = original, false = modified / foreign *)
+  c_pre : list (list C09.Model.seg) (* chunks an outsider put on the wire first (unsecured OPN chunks, garbage):
+                                      the channel has received them, in order, when it meets each judged chunk *)
 }.
 
-(* every chunk meets the channel in the same state (the harness resets the policy an OPN chunk may
-   have changed): status and length of the returned chunk *)
-Definition one (fx : fixes) (c : case) (ch : bytes) : res bytes :=
-  fst (recv (C09.Model.tr_prims (C09.Model.c_tr (c_recv c))) fx
-            (C09.Model.receiver_of (c_recv c) (C09.Model.c_policy (c_recv c))) ch).
 Definition report (r : res bytes) : list Z :=
   match r with Ok rc => [0; len rc] | _ => [C09.Model.code9 r; -1] end.
-Definition run_with (fx : fixes) (c : case) : list Z :=
+
+(* the preamble: what the receive path answers to each of its chunks, and the policy the channel
+   is left with (an OPN chunk can change it) *)
+Fixpoint pre_feed (fx : fixes) (c : case) (p : policy) (pre : list (list C09.Model.seg)) : list Z * policy :=
+  match pre with
+  | [] => ([], p)
+  | ch :: rest =>
+      let '(r, p') := recv (C09.Model.tr_prims (C09.Model.c_tr (c_recv c))) fx (C09.Model.receiver_of (c_recv c) p) (C09.Model.flat ch) in
+      let '(os, pf) := pre_feed fx c p' rest in (report r ++ os, pf)
+  end.
+Definition pre_policy (fx : fixes) (c : case) : policy := snd (pre_feed fx c (C09.Model.c_policy (c_recv c)) (c_pre c)).
+
+(* every judged chunk meets the channel in the same state -- configured policy, then the preamble
+   (the harness puts the policy back and replays the preamble before each): status and length of
+   the returned chunk *)
+Definition one (fx : fixes) (c : case) (ch : bytes) : res bytes :=
+  fst (recv (C09.Model.tr_prims (C09.Model.c_tr (c_recv c))) fx
+            (C09.Model.receiver_of (c_recv c) (pre_policy fx c)) ch).
+Definition judged (fx : fixes) (c : case) : list Z :=
   flat_map (fun ch => report (one fx c (C09.Model.flat ch))) (C09.Model.c_chunks (c_recv c)).
+Definition run_with (fx : fixes) (c : case) : list Z :=
+  fst (pre_feed fx c (C09.Model.c_policy (c_recv c)) (c_pre c)) ++ judged fx c.
 Definition run (c : case) : list Z := run_with current c.
 
 (* output: (status, length) per chunk; status 0 = accepted, 1 / 2 = rejected with an error, -2 = panic *)
@@ -40,7 +57,9 @@ Fixpoint check (orig : list bool) (out : list Z) : bool :=
       (if o then st =? 0 else (st =? 1) || (st =? 2)) && check orig' out'
   | _, _ => false
   end.
-Definition oracle (c : case) (out : list Z) : bool := check (c_orig c) out.
+(* the preamble's two entries per chunk are not judged: whether the unsecured chunks themselves are
+   passed on is the business of the layers above (C15); what is judged is every secured chunk after them *)
+Definition oracle (c : case) (out : list Z) : bool := check (c_orig c) (skipn (2 * length (c_pre c)) out).
 
 Definition known (c : case) : Z := 0.
 
